@@ -150,3 +150,57 @@ Example ex_startup :
   let es := [ECorruptSidecar 0%nat 5; EOpen [1%nat]; ERestart; ECorruptSidecar 0%nat 10; EReap [0; 1]%nat [] 3; EOpen [0%nat]] in
   map out_code (snd (run (fresh [10; 11]) es)) = [0; 2; 0; 0; 1; 1].
 Proof. vm_compute. reflexivity. Qed.
+
+(* ---------------------------------------------------------------- a failed consumer leaves the store as it was *)
+
+(* a refused reap has changed no file and written no plan (the check comes before the plan);
+   the only thing it may have done is cache the verdict of the one-time verification *)
+Theorem failed_reap_leaves_store_unchanged s ids gone v :
+  snd (step s (EReap ids gone v)) = Refused ->
+  files (fst (step s (EReap ids gone v))) = files s /\
+  plan (fst (step s (EReap ids gone v))) = plan s /\
+  (verified (fst (step s (EReap ids gone v))) = verified s \/ verified s = None).
+Proof.
+  cbn [step]. unfold ensure_verified. destruct (verified s) as [b|] eqn:Ev.
+  - destruct b; cbn [negb]; [|intros _; cbn [fst]; auto].
+    destruct (forallb fcheck (pick (files s) ids)); cbn [negb fst snd]; [discriminate | auto].
+  - destruct (forallb fcheck (files s)); cbn [negb]; [|intros _; cbn [fst files plan]; auto].
+    cbn [files]. destruct (forallb fcheck (pick (files s) ids)); cbn [negb fst snd files plan]; [discriminate | auto].
+Qed.
+
+Theorem failed_open_leaves_store_unchanged s ids :
+  snd (step s (EOpen ids)) = Refused ->
+  files (fst (step s (EOpen ids))) = files s /\ plan (fst (step s (EOpen ids))) = plan s.
+Proof.
+  cbn [step]. unfold ensure_verified. destruct (verified s) as [b|].
+  - destruct b; cbn [negb]; [|intros _; cbn [fst]; auto].
+    destruct (receiver_accepts (pick (files s) ids)); cbn [fst snd]; auto.
+  - destruct (forallb fcheck (files s)); cbn [negb]; [|intros _; cbn [fst files plan]; auto].
+    cbn [files]. destruct (receiver_accepts (pick (files s) ids)); cbn [fst snd files plan]; auto.
+Qed.
+
+(* no history leaves a reap plan (or any temporary entry) in the store directory *)
+Lemma step_plan s e : plan s = false -> plan (fst (step s e)) = false.
+Proof.
+  intros H. destruct e as [i v|i v|ids|ids gone v|]; cbn [step].
+  - destruct (nth_error (files s) i); exact H.
+  - destruct (nth_error (files s) i); exact H.
+  - unfold ensure_verified. destruct (verified s) as [[|]|]; cbn [negb]; try exact H;
+      [destruct (receiver_accepts (pick (files s) ids)); exact H|].
+    destruct (forallb fcheck (files s)); cbn [negb fst]; [|exact H].
+    cbn [files]. destruct (receiver_accepts (pick (files s) ids)); exact H.
+  - unfold ensure_verified. destruct (verified s) as [[|]|]; cbn [negb]; try exact H;
+      [destruct (forallb fcheck (pick (files s) ids)); cbn [negb fst plan]; [reflexivity | exact H]|].
+    destruct (forallb fcheck (files s)); cbn [negb fst]; [|exact H].
+    cbn [files]. destruct (forallb fcheck (pick (files s) ids)); cbn [negb fst plan]; [reflexivity | exact H].
+  - exact H.
+Qed.
+
+Theorem no_plan_left_behind crcs es : plan (fst (run (fresh crcs) es)) = false.
+Proof.
+  assert (G : forall es s, plan s = false -> plan (fst (run s es)) = false).
+  { induction es0 as [|e r IH]; intros s H; cbn [run]; [exact H|].
+    pose proof (step_plan s e H) as H1. destruct (step s e) as [s1 o]. cbn [fst] in H1.
+    specialize (IH s1 H1). destruct (run s1 r) as [s2 os]. exact IH. }
+  apply G. reflexivity.
+Qed.
